@@ -59,7 +59,7 @@ Definition upper_ok (mx : version) (xo : bool) (v : version) : bool :=
   let c := gc mx v in negb (((c =? 0) && xo) || (c <? 0)).
 
 (* the prerelease admission rule of span.contains *)
-Definition admit (mn mx v : version) : bool :=
+Definition admits (mn mx v : version) : bool :=
   if v_is_prerelease v then
     (v_is_prerelease mn && equal_values (v_num v) (v_num mn) && (gc mn v <=? 0))
     || (v_is_prerelease mx && equal_values (v_num v) (v_num mx))
@@ -69,7 +69,7 @@ Definition in_span (incl : bool) (s : span) (v : version) : bool :=
   match sp_rank s, sp_min s, sp_max s with
   | RUnit, Some mn, _ => gc mn v =? 0
   | RVector, Some mn, Some mx =>
-      lower_ok mn (sp_min_open s) v && upper_ok mx (sp_max_open s) v && (incl || admit mn mx v)
+      lower_ok mn (sp_min_open s) v && upper_ok mx (sp_max_open s) v && (incl || admits mn mx v)
   | _, _, _ => false
   end.
 
@@ -119,7 +119,7 @@ Proof.
     rewrite (compare_family S) by auto. simpl.
     destruct (((gc mx v =? 0) && sp_max_open s) || (gc mx v <? 0)); simpl; [reflexivity|].
     destruct incl; simpl; [reflexivity|].
-    destruct Hv as (Sv & Ev). rewrite Sv, not_maven. simpl. unfold admit.
+    destruct Hv as (Sv & Ev). rewrite Sv, not_maven. simpl. unfold admits.
     destruct (v_is_prerelease v); simpl; [|reflexivity].
     destruct (v_is_prerelease mn && equal_values (v_num v) (v_num mn)) eqn:E1; simpl.
     + rewrite (compare_family S) by (auto; split; auto). simpl.
@@ -157,7 +157,7 @@ Qed.
 (* a release version is matched alike under both modes *)
 Lemma in_span_release s v : v_is_prerelease v = false -> in_span false s v = in_span true s v.
 Proof.
-  intros R. unfold in_span, admit. rewrite R.
+  intros R. unfold in_span, admits. rewrite R.
   destruct (sp_rank s), (sp_min s), (sp_max s); simpl; auto; rewrite ?andb_true_r; reflexivity.
 Qed.
 Lemma in_spans_release l v : v_is_prerelease v = false -> in_spans false l v = in_spans true l v.
